@@ -309,7 +309,7 @@ def run_c02(run, thorough=False):
 # ------------------------------------------------------------------ C03
 
 REL_RE = re.compile(r"^\[?(?P<lab>[A-Za-z@][\w@]*)(?:(?P<k>[+-]\d+)|(?P<op2>[+-])(?P<lab2>[A-Za-z@][\w@]*))?,PCR\]?$")
-BR_RE = re.compile(r"^(?P<lab>[A-Za-z@][\w@]*)(?P<k>[+-]\d+)?$")
+BR_RE = re.compile(r"^[#<>]?(?P<lab>[A-Za-z@][\w@]*)(?P<k>[+-]\d+)?$")     # a prefix on a branch target is ignored by the tool: the label is what counts
 
 
 def run_c03(run, thorough=False):
